@@ -109,7 +109,7 @@ CONFIG = {
                 "written with two values, nothing may panic or change the board",
     },
     "C10": {
-        "ignore_ops": ("pos",), "spec_tags": ("perft", "snap"), "sample_tags": ("perft",),
+        "ignore_ops": ("pos",), "spec_tags": ("perft", "snap", "clicount"), "sample_tags": ("perft", "clicount"),
         "rule": "MoveGenerator::count_positions(depth) for depths 0..N in rayon pools of 1, 2, 4, 16 threads, with a cache-cleared and with a long-lived generator, vs the cumulative "
                 "perft of the rules spec (sum over k = 1..depth+1 of the number of legal move sequences of length k)",
     },
@@ -120,7 +120,7 @@ CONFIG = {
                 "every answer is compared with the model's apply_by_coords / apply_by_notation",
     },
     "C15": {
-        "ignore_ops": ("pos", "game", "gnew", "gtoggle", "gsync"), "spec_tags": ("book", "gselect", "gengine", "gcoord"), "sample_tags": ("book", "gselect", "gengine"),
+        "ignore_ops": ("pos", "game", "gnew", "gtoggle", "gsync"), "spec_tags": ("book", "gselect", "gengine", "gcoord", "watch"), "sample_tags": ("book", "gselect", "gengine", "watch"),
         "rule": "every node of the compiled opening-book trie (all prefixes of all lines) is compared with the continuations of the translated book source; the engine is asked for its move at every node "
                 "of every line, past the end of lines, and in supplied starting positions: the answer must be a legal move of the rules whenever one exists",
     },
@@ -238,6 +238,8 @@ def scenarios(pid, tier, seed):
             {"args": ["scen", "family=perfts", "depth=%d" % (2 if q else 3), "walkpos=%d" % (16 if q else 200), S], "shards": 16},
             # depth 4 is where two move orders under one root first reach one placement with and without a live en-passant capture
             {"args": ["scen", "family=perfts", "depth=4", "maxpieces=%d" % (5 if q else 7), "walkpos=%d" % (0 if q else 60), S], "shards": 16},
+            # the command-line driver itself (`chess count-positions --depth d`: one generator reused across the depths)
+            {"args": ["scen", "family=clicount", "depth=%d" % (2 if q else 3), S], "shards": 1},
             # depths 5 (and 6): where one root move's subtree first meets a position again with less depth remaining
             {"args": ["scen", "family=perfts", "depth=%d" % (5 if q else 6), "names=bare-kings,pawn-ending-ep,underpromo-mate,ep-gives-check,ep-evades-check", "walkpos=0", S], "shards": 16},
         ]
@@ -249,6 +251,9 @@ def scenarios(pid, tier, seed):
     if pid == "C15":
         return [
             {"args": ["scen", "family=engine", "sdepth=1", "reps=%d" % (1 if q else 4), "walkpos=%d" % (16 if q else 300), S], "shards": 16},
+            # the real `chess watch` loop (game::computer_vs_computer), stdout captured: every move it prints must be a
+            # legal move's notation, it must end exactly when the model's game_ending / the move limit says so, never with an error
+            {"args": ["scen", "family=watch", "games=%d" % (6 if q else 48), "limit=%d" % (24 if q else 100), S], "shards": 6},
         ]
     if pid == "C17":
         return [
